@@ -1,15 +1,29 @@
 """C01 — re-serialising any accepted wire input reproduces the consumed bytes exactly."""
 import vlib
+from props import common
 
-RULE = "..."
-ASSUME = []
-META = {"level": "model_checking", "technique": "t", "text": "t", "note": "n"}
+RULE = ("Every parser entry point (~60 Read*/New*FromBytes functions) is run on encodings computed by TLC from the reference layout "
+        "(Enc.tla): every certificate type x payload length x declared-length delta x tail; every known and sampled unknown "
+        "(signing, crypto) type pair x certificate kind for identities through 9 entry points; mappings incl. short final pairs, junk "
+        "tails, unsorted/duplicate keys, size +-1; all composite structures over their shape dimensions (one-at-a-time + seeded random "
+        "combinations), each also with appended data and, via Sweep, on every prefix. Non-trivial = the parser accepted the input and a "
+        "serialisation was compared with the consumed bytes; distinct = distinct vector content.")
+ASSUME = [common.TRUSTED, "'accepted' for ReadMapping/NewMapping = error list empty or only the documented 'data exists beyond length of mapping' warning",
+          "ReadLeaseSet returns no remainder: its serialisation must be a prefix of the input (and have the reference length when the reference accepts)"]
+META = {
+    "level": "model_checking",
+    "technique": "TLA+ reference codec model-checked exhaustively (append graph, Small instance) incl. an implementation-shaped model of the mapping pair loop; TLC-computed encodings replayed into every parser; recorded (input, remainder, serialisation) validated by TLC against the spec",
+    "text": ("The predicate 'serialisation = input minus remainder' is evaluated by TLC on every recorded parser call of the real library, for "
+             "inputs that TLC computed from an independent TLA+ description of the I2P layout across the whole shape space, including the "
+             "non-canonical-but-accepted classes (excess certificate payload, unknown certificate types, odd mappings, every key-type pair) and "
+             "every cut point. Model checking shows the oracle itself round-trips and that the modelled pair loop refines the grammar for all "
+             "mapping strings up to 10-11 bytes. Bounded: real-size content is sampled, not enumerated."),
+    "note": common.TRUSTED,
+}
 
 
 def check(run):
-    for fam in ("cert", "ident", "mapping"):
-        run.gen("Gen_Struct", consts={"Fam": fam}, tag="Gen_Struct_" + fam)
-    for fam in ("lease", "sig", "offsig", "raddr", "rinfo", "ls", "ls2", "meta", "els"):
-        run.gen("Gen_Struct2", consts={"Fam": fam}, tag="Gen_Struct2_" + fam)
+    common.mc_structs(run)
+    common.gen_structs(run)
     run.replay_and_judge()
     return vlib.finish(run, "model_checking", RULE, ASSUME)
